@@ -60,8 +60,41 @@ def check_module(rep, facts, mod, trait, sfx):
         rep.check(R1, f'{trait}::{name}', calls == [name], f'-> {M}::{name}', f'default `{trait}::{name}` calls {calls}, expected exactly [{name}]: the node would be skipped or walked twice', facts.loc(b))
     R2 = rep.rule('C20/R2', 'type-directed dispatch: for every variant of Item / Value with payload type P the default walker calls, on every path '
                   'through that arm, exactly one hook, namely the one whose node parameter is P; Item::None calls none', floor=22)
+    from .den import RecInterp, Evaluator, Unanalysable, EvalPanic
     for fn, adt in ((f'visit_item{sfx}', 'toml_edit::item::Item'), (f'visit_value{sfx}', 'toml_edit::value::Value')):
         b = facts.body(f'{M}::{fn}')
+        # decided by evaluating the dispatcher on one node of every variant with the hook calls recorded (match, if-let chain, any arm order)
+        variants = {v['name']: v for v in facts.adts[adt]['variants']}
+        pn = [p_['name'] for p_ in b.get('params', []) if p_.get('k') == 'p_bind']
+        table = {}
+        try:
+            for vname, v in variants.items():
+                it = RecInterp(Evaluator(facts), set(hooks))
+                node = ('ctor', f'{adt}::{vname}', tuple(('payload', vname, i) for i, _ in enumerate(v['fields']))) if v['fields'] else ('ctor', f'{adt}::{vname}')
+                env = {pn[0]: ('opaque',), pn[1]: node, '@assign': {}}
+                it.val(b['body'], env)
+                table[vname] = [(nm, args) for nm, args in it.calls]
+        except (Unanalysable, EvalPanic, IndexError, KeyError) as e:
+            table = None
+            rep.notes.append(f'{mod}::{fn} could not be evaluated ({e}); its match is read structurally.')
+        if table is not None:
+            for vname, v in variants.items():
+                calls = table[vname]
+                if not v['fields']:
+                    rep.check(R2, f'{mod}::{fn}|{vname}', not calls, 'no hook', f'`{vname}` has no payload but calls {[c[0] for c in calls]}', facts.loc(b))
+                    continue
+                pty = norm_ty(v['fields'][0]['ty'])
+                ok = len(calls) == 1 and list(calls[0][1]) == [('payload', vname, 0)]
+                detail = f'{[c[0] for c in calls]}'
+                if ok:
+                    hk = calls[0][0]
+                    hdef = facts.fns.get(hooks.get(hk, ''), {})
+                    want = norm_ty((hdef.get('inputs') or ['', ''])[-1]).lstrip('&')
+                    ok = want == pty
+                    detail = f'{hk}(node: {want}) for payload {pty}'
+                rep.check(R2, f'{mod}::{fn}|{vname}', ok, detail, f'`{adt}::{vname}` (payload {pty}) is dispatched to {detail}: nodes of that kind are skipped or visited through the wrong hook', facts.loc(b))
+            rep.ok(R2, f'{mod}::{fn}|all-variants', f'{len(variants)} variants evaluated', facts.loc(b))
+            continue
         ms = [n for n in walk(b['body']) if n.get('k') == 'match' and n.get('src') == 'Normal']
         if len(ms) != 1:
             rep.incomplete(R2, f'{mod}::{fn}|match', f'{len(ms)} matches')
